@@ -11,8 +11,11 @@ Inductive case :=
 | CQuote (s : list N)          (* lowQuote, lowDequote of it, ctcpQuote, ctcpDequote of it; and dequotes of s itself *)
 | CSend (nicklen : nat) (msgType user message : list N) (len : option Z) (wrapped : list (list (list N)))
 | CHist (calls : list case)    (* several calls on ONE client: the model has no state, each call stands alone *)
-| CRate (calls : list (case * nat)).   (* lineRate set: calls on one client, each followed by that many clock
-                                           ticks of lineRate seconds; then the queue is drained *)
+| CRate (calls : list (case * nat)) (reconn : option (nat * nat))
+      (* lineRate set: calls on one client, each followed by that many clock ticks of lineRate seconds;
+         reconn = Some (a, gap): after the a-th call and its ticks the connection is lost, the clock ticks
+         gap times, and the same client is connected to a new transport; at the end the queue is drained *)
+| CCtcp (msgs : list xmsg).    (* ctcpExtract (ctcpStringify msgs) *)
 
 Definition show_send (nl : nat) (mt u m : list N) (len : option Z) (wr : list (list (list N))) : string :=
   match send_message nl mt u m len wr with
@@ -27,11 +30,12 @@ Definition outcome_of (c : case) : outcome :=
   | _ => OBadTable
   end.
 
-(** the queue model driven by the calls: per call the outcome, the number of lines written after
-    the call's ticks; finally all lines in the order they were written *)
-Fixpoint rate_run (st : qstate) (calls : list (case * nat)) : list string * list nat * qstate :=
+(** the queue model driven by the calls: per call the outcome and the number of lines on the current
+    transport after the call's ticks; finally, per transport, all lines in the order they were written *)
+Fixpoint rate_run (i : nat) (reconn : option (nat * nat)) (st : qstate) (olds : list (list (list N)))
+         (calls : list (case * nat)) : list string * list nat * qstate * list (list (list N)) :=
   match calls with
-  | [] => ([], [], st)
+  | [] => ([], [], st, olds)
   | (c, ticks) :: r =>
       let '(tag, st1) := match outcome_of c with
                          | OSent wires => ("ok", fold_left q_send wires st)
@@ -39,15 +43,29 @@ Fixpoint rate_run (st : qstate) (calls : list (case * nat)) : list string * list
                          | OBadTable => ("BADTABLE", st)
                          end in
       let st2 := q_run st1 (repeat QTick ticks) in
-      let '(tags, counts, st3) := rate_run st2 r in
-      (tag :: tags, List.length (q_sent st2) :: counts, st3)
+      let '(st3, olds') :=
+        match reconn with
+        | Some (a, gap) =>
+            if Nat.eqb a (S i)
+            then let stg := q_run st2 (repeat QTick gap) in (q_connect stg, (olds ++ [q_sent stg])%list)
+            else (st2, olds)
+        | None => (st2, olds)
+        end in
+      let '(tags, counts, st4, olds'') := rate_run (S i) reconn st3 olds' r in
+      (tag :: tags, List.length (q_sent st2) :: counts, st4, olds'')
   end.
 
-Definition show_rate (calls : list (case * nat)) : string :=
-  let '(tags, counts, st) := rate_run q_init calls in
+Definition show_rate (calls : list (case * nat)) (reconn : option (nat * nat)) : string :=
+  let '(tags, counts, st, olds) := rate_run 0 reconn q_init [] calls in
   let st' := q_run st (repeat QTick (S (List.length (q_queue st)))) in
   String.concat ";" tags ++ " @ " ++ String.concat "," (map show_nat counts) ++ " @ "
-  ++ String.concat "|" (map show_hex (q_sent st')).
+  ++ String.concat "/" (map (fun ls => String.concat "|" (map show_hex ls)) ((olds ++ [q_sent st'])%list)).
+
+Definition show_xmsg (m : xmsg) : string := show_pair show_str (show_option show_str) m.
+
+Definition show_ctcp (msgs : list xmsg) : string :=
+  let (e, n) := ctcp_extract (ctcp_stringify msgs) in
+  "E" ++ show_list show_xmsg e ++ "N" ++ show_list show_str n.
 
 Fixpoint run_show (c : case) : string :=
   match c with
@@ -56,5 +74,6 @@ Fixpoint run_show (c : case) : string :=
       ++ " " ++ show_str (ctcpQuote s) ++ " " ++ show_str (ctcpDequote (ctcpQuote s)) ++ " " ++ show_str (ctcpDequote s)
   | CSend nl mt u m len wr => show_send nl mt u m len wr
   | CHist calls => String.concat ";" (map run_show calls)
-  | CRate calls => show_rate calls
+  | CRate calls reconn => show_rate calls reconn
+  | CCtcp msgs => show_ctcp msgs
   end.
